@@ -287,8 +287,9 @@ def check(ctx):
     # ---- Tracker itself ----------------------------------------------------------------------
     _tracker(ix, rep)
     _shots(ix, rep)
-    from .c73_extra import check_extra
+    from .c73_extra import check_extra, wrap_condition
     check_extra(ctx, rep)
+    wrap_condition(ctx, rep)
     return rep
 
 
